@@ -1263,6 +1263,7 @@ mod convert {
             for from_attr in from_header.include_directories() {
                 let from_dir =
                     Self::convert_string(from_attr.clone(), from_dwarf, encoding, line_strings)?;
+                Self::check_string(&from_dir)?;
                 dirs.push(program.add_directory(from_dir));
             }
 
@@ -1305,6 +1306,18 @@ mod convert {
             Ok(LineString::new(r.to_slice()?, encoding, line_strings))
         }
 
+        /// Check the requirements of `LineProgram::add_directory` and `LineProgram::add_file`.
+        ///
+        /// Inline strings (which are used for DWARF version <= 4) must not be empty.
+        fn check_string(string: &LineString) -> ConvertResult<()> {
+            match string {
+                LineString::String(val) if val.is_empty() => {
+                    Err(ConvertError::InvalidAttributeValue)
+                }
+                _ => Ok(()),
+            }
+        }
+
         fn convert_file(
             from_file: &read::FileEntry<R>,
             from_dwarf: &read::Dwarf<R>,
@@ -1314,6 +1327,7 @@ mod convert {
         ) -> ConvertResult<(LineString, DirectoryId, Option<FileInfo>)> {
             let from_name =
                 Self::convert_string(from_file.path_name(), from_dwarf, encoding, line_strings)?;
+            Self::check_string(&from_name)?;
             let from_dir = from_file.directory_index();
             if from_dir >= dirs.len() as u64 {
                 return Err(ConvertError::InvalidDirectoryIndex);
